@@ -898,6 +898,9 @@ def extract() -> dict[str, Any]:
     res["json_keys"] = json_keys(ex)
     res["names"] = {c: nm for c, nm in ex.names.items() if c in res["schemas"]}
     res["format_fields"] = format_fields(ex, res["names"])
+    res["set_fields"] = set_fields(ex)
+    res["json_field_map"] = json_field_map(ex, res["names"])
+    res["json_schemas"] = {c: js for c in sorted(res["names"]) if (js := derived_json_schema(res, c)) is not None}
     res["class_names"] = sorted(ex.classes)
     return res
 
@@ -1011,10 +1014,203 @@ def format_fields(ex: Extractor, names: dict[str, Any]) -> dict[str, tuple[list[
     return out
 
 
+def json_field_map(ex: Extractor, names: dict[str, Any]) -> dict[str, list[tuple[str, str, str]]]:
+    """per class: (JSON key, attribute serialize() takes it from, attribute/parameter deserialize() stores it into)"""
+    out: dict[str, list[tuple[str, str, str]]] = {}
+    for cls in sorted(names):
+        sfn, dfn = ex.methods.get((cls, "serialize")), ex.methods.get((cls, "deserialize"))
+        if sfn is None or dfn is None:
+            continue
+        wmap: dict[str, str] = {}
+        for n in ast.walk(sfn):
+            if isinstance(n, ast.Dict):
+                for k, v in zip(n.keys, n.values):
+                    if isinstance(k, ast.Constant) and isinstance(k.value, str) and k.value != ".class":
+                        if isinstance(v, ast.Call) and src(v.func) == "get_flags":
+                            wmap[k.value] = "flags"
+                        else:
+                            wmap[k.value] = ex.wname(v)
+            if isinstance(n, ast.Assign) and isinstance(n.targets[0], ast.Subscript) and isinstance(n.targets[0].slice, ast.Constant) \
+                    and isinstance(n.targets[0].slice.value, str) and isinstance(n.targets[0].value, ast.Name):
+                wmap[n.targets[0].slice.value] = ex.wname(n.value)
+        parent: dict[int, ast.AST] = {}
+        for x in ast.walk(dfn):
+            for c in ast.iter_child_nodes(x):
+                parent[id(c)] = x
+        rmap: dict[str, str] = {}
+        for n in ast.walk(dfn):
+            if isinstance(n, ast.Subscript) and isinstance(n.ctx, ast.Load) and isinstance(n.slice, ast.Constant) \
+                    and isinstance(n.slice.value, str) and isinstance(n.value, ast.Name) and n.slice.value != ".class":
+                key, cur, name = n.slice.value, n, "?"
+                while id(cur) in parent:
+                    p_ = parent[id(cur)]
+                    if isinstance(p_, ast.keyword) and p_.arg:
+                        gp = parent.get(id(p_))
+                        if isinstance(gp, ast.Call) and ex.callee_params(gp.func) is not None:
+                            name = p_.arg
+                            break
+                    if isinstance(p_, ast.Call):
+                        if src(p_.func) == "set_flags":
+                            name = "flags"
+                            break
+                        ps = ex.callee_params(p_.func)
+                        if ps is not None and cur in p_.args and p_.args.index(cur) < len(ps):
+                            name = ps[p_.args.index(cur)]
+                            break
+                    if isinstance(p_, (ast.Assign, ast.AnnAssign)):
+                        t = p_.targets[0] if isinstance(p_, ast.Assign) else p_.target
+                        if isinstance(t, ast.Attribute):
+                            name = t.attr
+                        elif isinstance(t, ast.Name):
+                            name = "local:" + t.id
+                        break
+                    if isinstance(p_, ast.stmt):
+                        break
+                    cur = p_
+                if key not in rmap or rmap[key] == "?":
+                    rmap[key] = name
+        # locals flow into constructor parameters / attributes
+        uses: dict[str, str] = {}
+        for n in ast.walk(dfn):
+            if isinstance(n, ast.Call):
+                ps = ex.callee_params(n.func)
+                if ps is not None:
+                    for i, a in enumerate(n.args):
+                        if isinstance(a, ast.Name) and i < len(ps):
+                            uses.setdefault(a.id, ps[i])
+                    for kw in n.keywords:
+                        if isinstance(kw.value, ast.Name) and kw.arg:
+                            uses.setdefault(kw.value.id, kw.arg)
+            if isinstance(n, ast.Assign) and isinstance(n.targets[0], ast.Attribute) and isinstance(n.value, ast.Name):
+                uses.setdefault(n.value.id, n.targets[0].attr)
+        rows = []
+        for key in sorted(set(wmap) | set(rmap)):
+            r_ = rmap.get(key, "<never read>")
+            if r_.startswith("local:"):
+                r_ = uses.get(r_[6:], "?")
+            r_ = CLASS_ALIASES.get((cls, norm_name(r_)), norm_name(r_))
+            rows.append((key, wmap.get(key, "<never written>"), r_))
+        out[cls] = rows
+    return out
+
+
+def derived_json_schema(res: dict[str, Any], cls: str) -> list[tuple[str, str]] | None:
+    """JSON schema (key, jop) of a class in the field order of the binary schema: the op of each field is the JSON
+    image of the field's binary op; the key is the one serialize() stores that attribute under"""
+    if cls not in res["json_field_map"] or cls not in res["names"]:
+        return None
+    w, _ = res["schemas"][cls]
+    wn, _ = res["names"][cls]
+    key_of = {}
+    for key, wf, _rf in res["json_field_map"][cls]:
+        key_of.setdefault(wf, key)
+    groups: list[list[Any]] = []
+    cur: list[Any] = []
+    sw = strip(w)
+    if sw and sw[0][0] == "Tag" and len(sw) > 1 and sw[-1] == ("Tag", "END_TAG"):
+        sw = sw[1:]     # the class tag
+    for o in sw:
+        cur.append(o)
+        if o[0] != "Tag":
+            groups.append(cur)
+            cur = []
+    if len(groups) != len(wn):
+        return None
+
+    def jop(g: list[Any]) -> str:
+        kinds = [(o[0], o[1] if len(o) > 1 else None) for o in g]
+        last = g[-1]
+        tags = [o[1] for o in g[:-1]]
+        if last[0] == "IntBare" and tags == ["LITERAL_INT"]:
+            return "JI"
+        if last[0] == "StrBare" and tags == ["LITERAL_STR"]:
+            return "JS"
+        if last[0] == "Bool" and not tags:
+            return "JB"
+        if last[0] == "Flags":
+            return "FLAGS"
+        if last[0] == "Opt" and not tags:
+            inner = jop(list(last[1]))
+            return f"JOpt ({inner})" if inner != "FLAGS" else "JNested"
+        if last[0] == "Rep":
+            body = list(last[1])
+            if len(body) == 1 and body[0][0] in ("StrBare", "IntBare") and tags in (["LIST_STR"], ["LIST_INT"]):
+                return "JList " + ("JS" if body[0][0] == "StrBare" else "JI")
+            if len(body) == 1 and body[0][0] == "Dyn" and tags == ["LIST_GEN"]:
+                return "JList JNested"
+            if [b[0] for b in body] == ["StrBare", "Dyn"] and tags == ["DICT_STR_GEN"]:
+                return "JPairs JNested"
+        return "JNested"
+    out = []
+    for g, name in zip(groups, wn):
+        if name.startswith("flags:"):
+            out.append(("flags", "JFlagsNames [" + "; ".join(zs(x) for x in name[6:].split(",")) + "]"))
+            continue
+        if name not in key_of:
+            return None
+        j = jop(g)
+        out.append((key_of[name], j if j != "FLAGS" else "JNested"))
+    if len({k for k, _ in out}) != len(out):
+        return None     # two binary fields share one JSON key (TypeInfo.abstract_attributes): not a keyed schema
+    return out
+
+
+def zs(x: str) -> str:
+    return "[" + "; ".join(str(ord(c)) for c in x) + "]"
+
+
+def set_fields(ex: Extractor) -> list[tuple[str, str, bool, bool]]:
+    """(class, field, sorted in write(), sorted in serialize()) for every attribute declared as a set that the
+    class serializes: hash-order independence requires every such use to go through sorted(...)"""
+    out = []
+    for cls, cd in sorted(ex.classes.items()):
+        w, sfn = ex.methods.get((cls, "write")), ex.methods.get((cls, "serialize"))
+        if w is None and sfn is None:
+            continue
+        names: set[str] = set()
+        for n in ast.walk(cd):
+            if isinstance(n, ast.AnnAssign) and "set[" in src(n.annotation):
+                t = n.target
+                if isinstance(t, ast.Name):
+                    names.add(t.id)
+                elif isinstance(t, ast.Attribute) and src(t.value) == "self":
+                    names.add(t.attr)
+        init = ex.methods.get((cls, "__init__"))
+        if init is not None:
+            for a in init.args.args + init.args.kwonlyargs:
+                if a.annotation is not None and "set[" in src(a.annotation):
+                    names.add(a.arg)
+
+        def uses(fn: ast.FunctionDef | None, name: str) -> str:
+            if fn is None:
+                return "absent"
+            parent: dict[int, ast.AST] = {}
+            for x in ast.walk(fn):
+                for c in ast.iter_child_nodes(x):
+                    parent[id(c)] = x
+            st = "absent"
+            for x in ast.walk(fn):
+                if isinstance(x, ast.Attribute) and x.attr == name and src(x.value) == "self" and isinstance(x.ctx, ast.Load):
+                    p_ = parent.get(id(x))
+                    if isinstance(p_, ast.Compare) and all(isinstance(c, ast.Constant) and c.value is None for c in p_.comparators):
+                        continue
+                    if isinstance(p_, ast.Call) and src(p_.func) == "sorted" and p_.args and p_.args[0] is x:
+                        st = "sorted" if st != "unsorted" else st
+                    else:
+                        st = "unsorted"
+            return st
+        for nm in sorted(names):
+            a, b = uses(w, nm), uses(sfn, nm)
+            if a == "absent" and b == "absent":
+                continue
+            out.append((cls, nm, a != "unsorted", b != "unsorted"))
+    return out
+
+
 HEADER = """(* GENERATED from mypy/cache.py, mypy/nodes.py, mypy/types.py by tools/extractors/t11.py
    -- do not edit; regenerated on every run *)
 From Coq Require Import ZArith List String Bool.
-From C11 Require Import Prim Schema.
+From C11 Require Import Prim Schema JsonText JsonSchema.
 Import ListNotations.
 Open Scope Z_scope.
 """
@@ -1066,6 +1262,18 @@ def render(res: dict[str, Any]) -> str:
     out.append("Definition format_fields : list (string * (list string * list string * list string)) := [")
     out.append(";\n".join(f'  ("{c}"%string, ({sl(js)}, {sl(bn)}, {sl(FORMAT_EXCEPTIONS.get(c, []))}))'
                           for c, (js, bn) in sorted(res["format_fields"].items())))
+    out.append("].")
+    out.append("")
+    out.append("(* attributes declared as sets that are serialized: (class, field, sorted in write(), sorted in serialize()) *)")
+    out.append("Definition set_fields : list (string * string * (bool * bool)) := [")
+    out.append(";\n".join(f'  ("{c}"%string, "{f}"%string, ({str(a).lower()}, {str(b).lower()}))' for c, f, a, b in res["set_fields"]))
+    out.append("].")
+    out.append("")
+    out.append("(* JSON schema per class, in the field order of the binary schema: (key serialize() stores the field under, JSON op) *)")
+    for c, js in sorted(res["json_schemas"].items()):
+        out.append(f"Definition js_{c} : list (list Z * jop) := [" + "; ".join(f"({zs(k)}, {o})" for k, o in js) + "].")
+    out.append("Definition json_schemas : list (string * (op * op * list (list Z * jop))) := [")
+    out.append(";\n".join(f'  ("{c}"%string, (w_{c}, r_{c}, js_{c}))' for c in sorted(res["json_schemas"])))
     out.append("].")
     out.append("")
     out.append("(* JSON keys written by serialize() and read by deserialize() *)")
